@@ -15,6 +15,10 @@ func main() {
 		e2eChild()
 		return
 	}
+	if vlib.IsChild() && len(os.Args) > 1 && os.Args[1] == "coll" {
+		collChild()
+		return
+	}
 	if vlib.IsChild() && len(os.Args) > 1 && os.Args[1] == "pipe" {
 		pipeChild()
 		return
@@ -44,6 +48,7 @@ func main() {
 	runE2E(c)
 	runHistory(c)
 	runPipelined(c)
+	runCollectives(c)
 	mc := c18rdma.MinCounters()
 	mc["e2e_runs"] = 30
 	mc["e2e_multi_gpu_runs_equal_to_single"] = 20
@@ -64,6 +69,10 @@ func main() {
 	mc["rdma_forwarded_requests|timing-mi300a|from-gpu1"] = 1000
 	mc["rdma_forwarded_requests|timing-mi300a|from-gpu2"] = 1000
 	mc["pipe_runs"] = 50
+	mc["collective_runs|allreduce"] = 60
+	mc["collective_runs|broadcast"] = 30
+	mc["collective_allreduce_runs_with_a_staged_block_not_a_multiple_of_the_gpu_count"] = 30
+	mc["collective_allreduce_runs_with_several_staged_blocks"] = 10
 	mc["pipe_multi_gpu_runs_equal_to_single|emu"] = 30
 	mc["pipe_multi_gpu_runs_equal_to_single|timing"] = 4
 	mc["pipe_launches_of_code_first_enqueued_behind_other_launches_on_another_queue|emu"] = 100
@@ -82,7 +91,8 @@ func main() {
 	mc["geom_host_split_launches|emu"] = 60
 	mc["geom_host_split_launches|timing"] = 6
 	c.Finish(vlib.FinishOpts{
-		Rule: "pipelined case (e2e-pipelined) = (program of 2-6 kernels over two buffers: in place on X / on Y, Y=op(X), X=op(Y), in place as a 2-D grid, fenced window read across slabs; at least two different code objects, each shared by all queues; ONE context, one or two command queues per GPU, data cut into unequal slabs (shares 7:1, 1:3, 1:4:2, 5:1:2:1), a slab's step issued in 1-3 launches, all launches enqueued back to back queue by queue or step by step, queues drained once at the end or exactly around a step that reads across slabs; emulation, r9nano timing, one case on mi300a); final buffers compared bit-exactly with the host shadow and the single-GPU run, a crash is a violation; non-trivial = multi-GPU run with >= 2 code objects; counters: launches of a code object that another queue enqueued first behind other launches (static), and launches enqueued while that upload was provably still pending in the other queue (pending commands there > 4 x launches behind the upload + 3). " +
+		Rule: "collective case = (mccl.AllReduceRing (average) or mccl.BroadcastRing; 2, 3 or 4 GPUs; element counts 1, 2, 3, #GPUs-1..#GPUs+1, 1000..1002, 1023..1026, staging size -1/0/+1, 2 x staging size + 3 and seeded ones; staging buffers of 4..4096 elements; emulation, two cases on r9nano timing); inputs are integer multiples of 12 so the result is exact: every GPU's buffer compared bit-exactly with the host result, guard elements behind the element count and behind the staging buffers must stay unchanged; non-trivial = all-reduce with a staged block that is not a multiple of the GPU count. " +
+			"pipelined case (e2e-pipelined) = (program of 2-6 kernels over two buffers: in place on X / on Y, Y=op(X), X=op(Y), in place as a 2-D grid, fenced window read across slabs; at least two different code objects, each shared by all queues; ONE context, one or two command queues per GPU, data cut into unequal slabs (shares 7:1, 1:3, 1:4:2, 5:1:2:1), a slab's step issued in 1-3 launches, all launches enqueued back to back queue by queue or step by step, queues drained once at the end or exactly around a step that reads across slabs; emulation, r9nano timing, one case on mi300a); final buffers compared bit-exactly with the host shadow and the single-GPU run, a crash is a violation; non-trivial = multi-GPU run with >= 2 code objects; counters: launches of a code object that another queue enqueued first behind other launches (static), and launches enqueued while that upload was provably still pending in the other queue (pending commands there > 4 x launches behind the upload + 3). " +
 			"platforms: emulation, r9nano timing, mi300a timing (CDNA3 decoding and ALUs; the hand-assembled kernels are checked with the real decoder in CDNA3 mode on every run; 2 GPUs in quick: 1 GPU | buffers on GPU 2 launch on GPU 1 | buffers on GPU 1 launch on GPU 2 | both with a second launch site on the owner | distributed 1-2 | unified 1-2). chain programs: kernels at alternating launch sites each consume what the previous one wrote, every launch drained, NO host copy in between (legal since the L1 caches are invalidated at every launch; the owner's L2 is the home of a line); counters history_kernels_consuming_another_gpus_kernel_output per platform and direction, rdma_forwarded_requests per platform and GPU (port hook on every rdma.Comp's RDMARequestOutside) have minimums; a GPU that accesses remote pages while its engine forwarded nothing is a counter, and a key (remote-access-not-forwarded) only together with a data difference; host-split geometry launches hand slab k of step s to GPU (k+s) mod #GPUs. " +
 			"launch geometry (both end-to-end layers): read-modify-write kernel buf[i] = op(buf[i], c), i = gx + gy*pitchX + gz*pitchXY computed from the work-group and work-item ids, launched with 1-D / 2-D / 3-D grids (work-group shapes 64x1 .. 2x2x2; 1, 2, 3, 5 or many work-group rows; row lengths small / multiples of 64 / just above multiples of 64 / arbitrary; partial last work-groups in every dimension) on unified devices of 2, 3 and 4 members (also GPUs 2-3 of 4 and members in the order 4-2-1) and on plain 2/3/4-GPU platforms where the host splits the grid into slabs of work-groups; every element is owned by exactly one work-item, so a work-group that never ran or ran twice changes the final data (classes element-not-processed / element-processed-twice); counters geom_unified_launches_with_fewer_wg_rows_than_members and ..._with_a_share_wrapping_a_row_end (a member's share of flattened work-group ids is shorter than one row of work-groups and crosses a row end) have minimums. " +
 			"history case (e2e-history) = (multi-phase host program over 2-3 buffers drawn from {upload of a whole buffer / page-aligned sub-range / arbitrary sub-range, kernel at an abstract launch site: element-wise in place | dst[i] = op(src[window(i)], c) between two buffers | the driver's device-to-device copy kernel, read-back of an intermediate result, re-upload of data kernels have read, further kernels}, every step drained before the next; placement: 1 GPU | everything on GPU 2 of 2 | buffers allocated on / remapped to another GPU than the launching one | buffers distributed page-wise with launches from several GPUs, queues created up front and one code object shared by all GPUs | single pages remapped over 4 GPUs | unified device over 2/4 GPUs; emulation, r9nano timing with DMA copies, r9nano timing with magic copy (copy-only programs)); every read-back compared bit-exactly with a flat program-order shadow (hence equal between placements); a differing element is classified by the step whose effect is missing (stale-after-reupload, stale-after-kernel-write, kernel-write-not-visible, upload-not-visible, wrong-value); programs never let a kernel read data another kernel wrote without a host copy in between (open finding stale-l1-across-kernels); non-trivial = multi-GPU run of a program with >= 2 kernels and a re-upload after a kernel in which some kernel read pages of another GPU; the counter history_rereads_after_reupload_not_touching_reader counts kernels that re-read, on a GPU owning none of the re-uploaded pages, lines that GPU had read before the re-upload with no other copy touching that GPU's pages in between. " +
